@@ -77,6 +77,10 @@ CHECKS = {
             "Templates of 1-3 (thorough 4) operations over 3 modes with affine single-parameter arguments and repeated parameters; for each, the instance and every reordering that preserves per-mode order must match, return exactly the template parameters and reproduce the arguments on re-instantiation; every single structural edit must raise TemplateError unless a brute-force bijection search shows the edited program is still an instance.",
             "Arguments compared to 1e-9 relative; value class rotated per template (all classes on parameter-repeating templates).",
             "DESIGN.md section 5 C17"),
+    "C18": ("exploration", "bounded-exhaustive metamorphic enumeration of layout edits at every site x global styles, gated by the g4-derived reference tokenizer",
+            "For 8 base scripts covering every rule that mentions NEWLINE or TAB: every single layout edit at every site (spaces 1-3 at each intra-line token boundary and line end, trailing comments, inserted blank / space-only / comment lines outside array bodies) x global styles (LF/CRLF/CR, tab vs four spaces, final newline or not), lines before the metadata, and (thorough) all pairs of line edits on short bases; the loaded program's exact canonical digest must equal the base's.",
+            "Spacing edits are used only when the reference tokenizer confirms an unchanged token sequence. One recorded finding (line directly after a for header).",
+            "DESIGN.md section 5 C18"),
     # id: (category, technique, text, note, design_ref)
     "C02": ("exploration", "bounded-exhaustive enumeration of script prefixes (BFS over item sequences) vs reference denotation",
             "Every item sequence over the statement menu up to the stated depth is rendered, loaded by the real parser/evaluator and compared with an independently written reference denotation; complete for the stated alphabet and depth, nothing beyond.",
